@@ -95,9 +95,14 @@ partial def filter? : J → Option Filter
   | .obj [("alt", .arr [a, b])] => do some (.alt (← filter? a) (← filter? b))
   | _ => none
 
+/-- A program: `{"c":[f,g,…]}` = `f, g, …` at top level, anything else one expression. -/
+def prog? : J → Option Prog
+  | .obj [("c", .arr fs)] => (fs.mapM filter?).map Prog.many
+  | j => (filter? j).map Prog.one
+
 /-- `-` = no filter. -/
-def optFilter? (s : String) : Option (Option Filter) :=
-  if s == "-" then some none else (json? s).bind (fun j => (filter? j).map some)
+def optFilter? (s : String) : Option (Option Prog) :=
+  if s == "-" then some none else (json? s).bind (fun j => (prog? j).map some)
 
 def showOptJ : Option J → String
   | none => "-"
